@@ -169,3 +169,106 @@ REG.add(Contract(
     properties=["C01", "C03", "C12", "C13", "C15"]))
 REG.add(Contract(f"{EG}.modules", module=M_EG, kind="property", params=dict(self=EG), returns="Bag[Node]",
                  ensures=["forall(Node, lambda n: (n in result) == node(self._graph, n))"], properties=["C11", "C04"]))
+
+# ---------------------------------------------------------------- RuleViolationBaseDetector / RuleViolationDetector
+RVD = "RuleViolationDetector"
+REG.macro("order_dep", ["mr", "d"], "d if mr._importer_specified_as_rule_subject else (d[1], d[0])")
+REG.add(Contract("RuleViolationBaseDetector._get_rule_subject_and_object_in_user_specified_order", module=M_RVD,
+                 kind="method", params=dict(self=RVD, dependency="Dep"), returns="Dep",
+                 defn="order_dep(self._module_requirement, dependency)", properties=["C01", "C03", "C12"]))
+REG.add(Contract("RuleViolationBaseDetector._get_dependency_expectations", module=M_RVD, kind="method",
+                 params=dict(self=RVD), returns="DependencyExpectation",
+                 ensures=[
+                     "result.not_explicitly_requested_dependencies_should_not_be_present == (self._behavior_requirement.should_not and self._behavior_requirement.behavior_exception)",
+                     "result.explicitly_requested_dependencies_should_not_be_present == (self._behavior_requirement.should_not and not self._behavior_requirement.behavior_exception)",
+                     "result.explicitly_requested_dependencies_and_no_other_should_be_present == (self._behavior_requirement.should_only and not self._behavior_requirement.behavior_exception)",
+                     "result.explicitly_requested_dependencies_should_not_but_others_should_be_present == (self._behavior_requirement.should_only and self._behavior_requirement.behavior_exception)",
+                     "result.at_least_one_not_explicitly_requested_dependency_should_be_present == (self._behavior_requirement.should and self._behavior_requirement.behavior_exception)",
+                     "result.explicitly_requested_dependencies_should_be_present == (self._behavior_requirement.should and not self._behavior_requirement.behavior_exception)",
+                 ], properties=["C01", "C12"]))
+REG.add(Contract("RuleViolationBaseDetector._get_importee_modules_as_specified_by_user", module=M_RVD, kind="method",
+                 params=dict(self=RVD), returns="Bag[Mod]",
+                 ensures=["forall(Mod, lambda m: (m in result) == exists(Filter, lambda f: (f in self._module_requirement._importees_as_specified_by_user) and m == f2m(f)))"],
+                 properties=["C01", "C03"]))
+
+# realised(d) = user-ordered image of the union of the dict's value lists
+REG.macro("realised_rel", ["mr", "d", "x"], "exists(Dep, Dep, lambda k, dep: (k in d) and (dep in d[k]) and x == order_dep(mr, dep))")
+REG.macro("realised_rel_m", ["mr", "d", "x"], "exists(Mod, Dep, lambda k, dep: (k in d) and (dep in d[k]) and x == order_dep(mr, dep))")
+REG.macro("abstract_missing_rel", ["mr", "d", "x"], "exists(Dep, lambda k: (k in d) and (not nonempty(d[k])) and x == order_dep(mr, k))")
+REG.macro("missing_rel", ["mr", "d", "x"],
+          "exists(Mod, Filter, lambda m, o: (m in d) and (not nonempty(d[m])) and (o in mr._importees_as_specified_by_user) and x == (m, f2m(o)))")
+
+_inner = dict(sig="for dependency in dependencies", invariant=[
+    "forall(Dep, lambda x: (x in violating_dependencies_in_user_specified_rule_subject_object_order) == ((x in pre(violating_dependencies_in_user_specified_rule_subject_object_order)) or exists(Dep, lambda dep: (dep in seen) and x == order_dep(self._module_requirement, dep))))"])
+_outer = dict(sig="for dependencies in violating_dependencies", invariant=[
+    "forall(Dep, lambda x: (x in violating_dependencies_in_user_specified_rule_subject_object_order) == exists(Bag[Dep], Dep, lambda B, dep: (B in seen) and (dep in B) and x == order_dep(self._module_requirement, dep)))"])
+c1 = REG.add(Contract("RuleViolationBaseDetector._get_realised_dependencies", module=M_RVD, kind="method",
+                      params=dict(self=RVD, explicitly_requested_dependencies="Dict[Dep,Bag[Dep]]"), returns="Set[Dep]",
+                      ensures=["forall(Dep, lambda x: (x in result) == realised_rel(self._module_requirement, explicitly_requested_dependencies, x))"],
+                      locals=dict(violating_dependencies_in_user_specified_rule_subject_object_order="Set[Dep]"),
+                      loops={0: _outer, 1: _inner}, properties=["C01", "C03", "C12"]))
+c1.alt = REG.add(Contract("RuleViolationBaseDetector._get_realised_dependencies@mod", module=M_RVD, kind="method",
+                          qualname="RuleViolationBaseDetector._get_realised_dependencies",
+                          params=dict(self=RVD, explicitly_requested_dependencies="Dict[Mod,Bag[Dep]]"), returns="Set[Dep]",
+                          ensures=["forall(Dep, lambda x: (x in result) == realised_rel_m(self._module_requirement, explicitly_requested_dependencies, x))"],
+                          locals=dict(violating_dependencies_in_user_specified_rule_subject_object_order="Set[Dep]"),
+                          loops={0: _outer, 1: _inner}, properties=["C01", "C03", "C12"]))
+REG.add(Contract(f"{RVD}._get_abstract_dependencies_without_realisations", module=M_RVD, kind="method",
+                 params=dict(self=RVD, explicitly_requested_dependencies="Dict[Dep,Bag[Dep]]"), returns="Set[Dep]",
+                 ensures=["forall(Dep, lambda x: (x in result) == abstract_missing_rel(self._module_requirement, explicitly_requested_dependencies, x))"],
+                 properties=["C01", "C03", "C12"]))
+REG.add(Contract(f"{RVD}._get_missing_dependencies_in_user_specified_order", module=M_RVD, kind="method",
+                 params=dict(self=RVD, not_explicitly_requested_dependencies="Dict[Mod,Bag[Dep]]"), returns="Set[Dep]",
+                 ensures=["forall(Dep, lambda x: (x in result) == missing_rel(self._module_requirement, not_explicitly_requested_dependencies, x))"],
+                 locals=dict(dependencies="Bag[Dep]"),
+                 loops={
+                     0: dict(sig="for (module_with_missing_dependencies, not_explicitly_requested_dependencies_of_module) in not_explicitly_requested_dependencies.items()", invariant=[
+                         "forall(Dep, lambda y: (y in dependencies) == exists(Mod, Filter, lambda m, o: ((m, not_explicitly_requested_dependencies[m]) in seen) and (not nonempty(not_explicitly_requested_dependencies[m])) and (o in self._module_requirement._importees_as_specified_by_user) and y == ((m, f2m(o)) if self._module_requirement._importer_specified_as_rule_subject else (f2m(o), m))))"]),
+                     1: dict(sig="for other_module in self._get_importee_modules_as_specified_by_user()", invariant=[
+                         "forall(Dep, lambda y: (y in dependencies) == ((y in pre(dependencies)) or exists(Mod, lambda om: (om in seen) and y == (module_with_missing_dependencies, om))))"]),
+                     2: dict(sig="for other_module in self._get_importee_modules_as_specified_by_user()", invariant=[
+                         "forall(Dep, lambda y: (y in dependencies) == ((y in pre(dependencies)) or exists(Mod, lambda om: (om in seen) and y == (om, module_with_missing_dependencies))))"]),
+                 }, properties=["C01", "C03", "C12"]))
+
+from pyvc import extract as _extract
+
+
+def _argnames(module, qualname):
+    fn = _extract.module(module).function(qualname)
+    return [a.arg for a in fn.args.args] if fn is not None else None
+
+
+_BUCKET_METHODS = [
+    ("_should_not_requirement_violations", "Dep", "realised_rel"),
+    ("_should_requirement_violations", "Dep", "abstract_missing_rel"),
+    ("_should_only_requirement_violations_by_no_import", "Dep", "abstract_missing_rel"),
+    ("_should_only_requirement_violations_by_not_explicitly_requested_dependency", "Mod", "realised_rel_m"),
+    ("_should_except_requirement_violations", "Mod", "missing_rel"),
+    ("_should_only_except_requirement_violations_due_to_no_other_imports", "Mod", "missing_rel"),
+    ("_should_only_except_requirement_violations_due_to_explicit_dependency_present", "Dep", "realised_rel"),
+    ("_should_not_except_requirement_violations", "Mod", "realised_rel_m"),
+]
+for _name, _K, _rel in _BUCKET_METHODS:
+    _an = _argnames(M_RVD, f"{RVD}.{_name}") or ["self", "flag", "deps"]
+    REG.add(Contract(f"{RVD}.{_name}", module=M_RVD, kind="method",
+                     params={_an[0]: RVD, _an[1]: "Bool", _an[2]: f"Opt[Dict[{_K},Bag[Dep]]]"}, returns="Set[Dep]",
+                     ensures=[f"forall(Dep, lambda x: (x in result) == ({_an[1]} and (not is_none({_an[2]})) and {_rel}(self._module_requirement, {_an[2]}, x)))"],
+                     properties=["C01", "C03", "C12"]))
+
+REG.macro("viol_buckets", ["mr", "b", "expl", "nexpl", "r"],
+          "forall(Dep, lambda x: (x in r.should_not_violations) == (b.should_not and (not b.behavior_exception) and (not is_none(expl)) and realised_rel(mr, expl, x))) "
+          "and forall(Dep, lambda x: (x in r.should_violations) == (b.should and (not b.behavior_exception) and (not is_none(expl)) and abstract_missing_rel(mr, expl, x))) "
+          "and forall(Dep, lambda x: (x in r.should_only_violations_by_no_import) == (b.should_only and (not b.behavior_exception) and (not is_none(expl)) and abstract_missing_rel(mr, expl, x))) "
+          "and forall(Dep, lambda x: (x in r.should_only_violations_by_forbidden_import) == (b.should_only and (not b.behavior_exception) and (not is_none(nexpl)) and realised_rel_m(mr, nexpl, x))) "
+          "and forall(Dep, lambda x: (x in r.should_except_violations) == (b.should and b.behavior_exception and (not is_none(nexpl)) and missing_rel(mr, nexpl, x))) "
+          "and forall(Dep, lambda x: (x in r.should_only_except_violations_by_no_import) == (b.should_only and b.behavior_exception and (not is_none(nexpl)) and missing_rel(mr, nexpl, x))) "
+          "and forall(Dep, lambda x: (x in r.should_only_except_violations_by_forbidden_import) == (b.should_only and b.behavior_exception and (not is_none(expl)) and realised_rel(mr, expl, x))) "
+          "and forall(Dep, lambda x: (x in r.should_not_except_violations) == (b.should_not and b.behavior_exception and (not is_none(nexpl)) and realised_rel_m(mr, nexpl, x)))")
+REG.add(Contract("RuleViolationBaseDetector.get_rule_violation", module=M_RVD, kind="method",
+                 params=dict(self=RVD, explicitly_requested_dependencies="Opt[Dict[Dep,Bag[Dep]]]",
+                             not_explicitly_requested_dependencies="Opt[Dict[Mod,Bag[Dep]]]"), returns="RuleViolations",
+                 ensures=["viol_buckets(self._module_requirement, self._behavior_requirement, explicitly_requested_dependencies, not_explicitly_requested_dependencies, result)"],
+                 properties=["C01", "C03", "C12"]))
+REG.macro("any_violation", ["r"], " or ".join(f"nonempty(r.{b})" for b in BUCKETS))
+REG.add(Contract("RuleViolations.__bool__", module=M_RV, kind="method", params=dict(self="RuleViolations"),
+                 returns="Bool", defn="any_violation(self)", properties=["C01", "C12"]))
